@@ -304,7 +304,7 @@ def shrink(prop, case, obs, use_model, is_bad, rounds=12):
         vs, ok, _ = eval_cases(prop, items, use_model, 'shrink')
         found = None
         for (c, o), v in zip(items, vs):
-            if v in ('VSpec', 'VBoth') and is_bad(c, o):
+            if v in ('VSpec', 'VBoth') and is_bad(c, o, v):
                 found = (c, o)
                 break
         if not found:
@@ -447,11 +447,13 @@ def run_check(prop, tier='quick', seed=0, replay=None, budget=None):
         kinds[k] = kinds.get(k, 0) + 1
         if v in ('VSpec', 'VBoth'):
             f = matches_open(c, o)
-            if f:
+            if f and v == 'VSpec':
                 known_hits.setdefault(f['id'], (f, c, o))
             else:
+                # inside the class of an open finding the model mirrors the known behaviour exactly, so an
+                # oracle failure on which model and implementation ALSO differ (VBoth) is new behaviour
                 spec_bad.append((c, o))
-        if v in ('VDiff', 'VBoth') and not (v == 'VBoth' and matches_open(c, o) and False):
+        if v in ('VDiff', 'VBoth'):
             diffs.append((c, o))
     for fid, (f, c, o) in sorted(known_hits.items()):
         print('KNOWN-FINDING: property=%s %s: %s' % (pid, fid, f['what']))
@@ -466,7 +468,7 @@ def run_check(prop, tier='quick', seed=0, replay=None, budget=None):
         rc = 1
     elif spec_bad:
         c, o = spec_bad[0]
-        c2, o2 = shrink(prop, c, o, use_model, lambda cc, oo: not matches_open(cc, oo))
+        c2, o2 = shrink(prop, c, o, use_model, lambda cc, oo, vv: vv == 'VBoth' or not matches_open(cc, oo))
         payload = {'property': pid, 'seed': seed, 'case': c2, 'impl_obs': o2, 'original_case': c,
                    'what': 'the oracle of Spec/%s.v rejects the implementation\'s behaviour on this input' % pid,
                    'n_failing': len(spec_bad)}
@@ -494,7 +496,7 @@ def run_check(prop, tier='quick', seed=0, replay=None, budget=None):
                 if found:
                     break
         if found:
-            c2, o2 = shrink(prop, found[0], found[1], False, lambda cc, oo: not matches_open(cc, oo))
+            c2, o2 = shrink(prop, found[0], found[1], False, lambda cc, oo, vv: not matches_open(cc, oo))
             payload = {'property': pid, 'seed': seed, 'case': c2, 'impl_obs': o2, 'original_case': found[0],
                        'what': 'found by the widened search after a proof/correspondence break', 'notes': notes}
             p = write_replay(pid, seed, payload)
